@@ -138,7 +138,8 @@ def cases(tier):
         for ti, t in enumerate(trees(n, depth)):
             top = t if t[0] == "list" else ("list", [t])  # `filters:` is always a list
             if tier == "thorough":
-                ks = rot
+                # <= 2 leaves: every clause-kind row; 3 leaves: three of the seven rows; 4 leaves: one (rotating with the tree)
+                ks = rot if n <= 2 else [rot[(ti + j) % len(rot)] for j in ((0, 2, 5) if n == 3 else (0,))]
             elif n == 1:
                 ks = rot
             elif n == 2:
